@@ -246,13 +246,6 @@ Proof. intros H. unfold join_gen, gen_at. rewrite H. reflexivity. Qed.
 
 Ltac norm := cbn [fst snd gens alive raised killed cache clen max_id a_stuck].
 
-Lemma no_free_has_free s : (forall i, is_free (cell s i) = false) -> has_free s = false.
-Proof.
-  intros H. unfold has_free. destruct (existsb _ _) eqn:E; [|reflexivity].
-  apply existsb_exists in E. destruct E as [[i c] [Hin Hf]]. cbn [snd] in Hf.
-  apply in_elements_cell in Hin. specialize (H i). unfold cell in H. rewrite Hin in H. congruence.
-Qed.
-
 Lemma free_below_used s i : LInv s -> is_free (cell s i) = true -> i < used s.
 Proof.
   intros HI Hf. destruct (N.lt_ge_cases i (used s)) as [|Hge]; [assumption|].
@@ -278,7 +271,7 @@ Proof.
     { intros i. destruct (is_free (cell s i)) eqn:E; [|reflexivity]. apply HL in E. destruct E. }
     assert (cell s (max_id a) = Never) as Hnever by (apply (J_beyond _ HI); lia).
     assert (valid_choice s (max_id a) = true) as Hv.
-    { unfold valid_choice. rewrite Hnever, Hu, N.eqb_refl, (no_free_has_free _ Hnf). reflexivity. }
+    { unfold valid_choice. rewrite Hnever, Hu, N.eqb_refl, (no_free_has_free _ HI Hnf). reflexivity. }
     destruct (Hcell (max_id a)) as [Hg _]. rewrite Hnever in Hg. cbn [exp_gen] in Hg.
     norm. rewrite (join_gen_ext _ a) by reflexivity.
     assert (join_gen a (max_id a) = 1%Z) as Hj.
@@ -348,7 +341,7 @@ Proof.
     { intros i. destruct (is_free (cell s i)) eqn:E; [|reflexivity]. apply HL in E. destruct E. }
     assert (cell s (max_id a) = Never) as Hnever by (apply (J_beyond _ HI); lia).
     assert (valid_choice s (max_id a) = true) as Hv.
-    { unfold valid_choice. rewrite Hnever, Hu, N.eqb_refl, (no_free_has_free _ Hnf). reflexivity. }
+    { unfold valid_choice. rewrite Hnever, Hu, N.eqb_refl, (no_free_has_free _ HI Hnf). reflexivity. }
     destruct (Hcell (max_id a)) as [Hg [Ha [Hr Hk]]]. rewrite Hnever in *. cbn [exp_gen exp_alive exp_raised exp_killed] in *.
     rewrite raise_gen_spec by (rewrite (gen_at_ext _ a) by reflexivity; lia).
     rewrite (gen_at_ext _ a) by reflexivity. rewrite Hg. norm.
